@@ -97,5 +97,7 @@ ExercisedReg(s, e, f, o, ln) ==
   (IF o.op = "SyncState" /\ o.id \notin DOMAIN e.r.tables /\ (o.id \in e.gone \/ o.id \in DOMAIN e.pend) THEN {"C09.brokenTableNamed"} ELSE {}) \cup
   (IF o.op = "SyncState" /\ o.id \notin DOMAIN e.r.tables /\ o.out > 0 THEN {"C09.unknownTableWithEliminations"} ELSE {}) \cup
   (IF o.op = "AddPlayers" /\ e.r.status = AfterReg THEN {"C09.afterDeadline"} ELSE {}) \cup
+  (IF o.op = "ReleasePlayers" /\ o.id \notin DOMAIN e.member THEN {"C19.strayRelease"} ELSE {}) \cup
+  (IF o.op = "ReleasePlayers" /\ o.id \notin DOMAIN e.member /\ e.r.status = Pending /\ Cardinality(e.reg) >= e.r.min THEN {"C19.strayReleaseWhilePending"} ELSE {}) \cup
   (IF ln.settle = "end" /\ s.active THEN {"C20.settleEpisode", "C20.settleSweeps" \o ToString(s.sweep)} ELSE {})
 =============================================================================
